@@ -698,7 +698,7 @@ Lemma flat_map_map {A B C} (g : B -> C) (h : A -> list B) (h' : A -> list C) l :
   (forall a, h' a = map g (h a)) -> flat_map h' l = map g (flat_map h l).
 Proof. intros H. induction l as [|a l IH]; [reflexivity|]. cbn [flat_map]. now rewrite map_app, H, IH. Qed.
 
-Lemma find_map {A B} (p : B -> bool) (g : A -> B) l :
+Lemma find_map_fs {A B} (p : B -> bool) (g : A -> B) l :
   find p (map g l) = option_map g (find (fun a => p (g a)) l).
 Proof. induction l as [|a l IH]; [reflexivity|]. cbn [map find]. destruct (p (g a)); [reflexivity | exact IH]. Qed.
 
@@ -735,7 +735,7 @@ Proof.
   { unfold cands. rewrite map_app. cbn [map]. f_equal.
     apply flat_map_map. intros [f s1]. unfold cand1. apply flat_map_map. intros [sg s2].
     unfold cand2. destruct s2 as [|c s3]; [reflexivity|]. destruct (is_align c); reflexivity. }
-  rewrite E, find_map.
+  rewrite E, find_map_fs.
   rewrite (find_ext' (fun a => accp (finish spec a)) tailok).
   2:{ intros s3. unfold accp, finish, tailok. destruct (span_digits s3) as [d rest]. reflexivity. }
   destruct (find tailok (cands spec)) as [s3|]; [|reflexivity].
@@ -1058,3 +1058,123 @@ Proof.
   rewrite spec_object_print_sf; [|destruct Hf; [left | right; left]; assumption|exact Hw].
   now apply apply_sf_ext.
 Qed.
+
+(* any non-empty string_format of the grammar splits off unambiguously *)
+Theorem split_spec_grammar_colon sf o :
+  in_grammar sf -> sf <> [] -> split_spec (sf ++ colon_tail o) = Some (sf, o).
+Proof.
+  intros [H | (fill & flag & al & w & H1 & H2 & ->)] Hne.
+  - now apply split_spec_width.
+  - now apply split_spec_print_sf.
+Qed.
+
+(* colon_fill in words *)
+Theorem colon_fill_iff ansi :
+  colon_fill ansi = true <->
+  exists flag al w o, flag_ok flag /\ digits w /\ ansi = opt_str flag ++ align_char al :: w ++ colon_tail o.
+Proof.
+  split.
+  - intros H. apply split_spec_colon_fill in H as (flag & al & w & o & H1 & H2 & H3 & _).
+    exists flag, al, w, o. auto.
+  - intros (flag & al & w & o & H1 & H2 & ->). unfold colon_fill.
+    apply flag_okb_spec in H1. destruct flag as [sg|]; cbn [flag_okb opt_str app] in *.
+    + rewrite (cand1_sign_align sg al _ H1). cbn [existsb]. now rewrite (tailok_digits_tail w o H2).
+    + rewrite cand1_align. cbn [existsb]. now rewrite (tailok_digits_tail w o H2).
+Qed.
+
+(* ---------------------------------------------------------------------------------------- *)
+(* witnesses for the hypotheses, and end-to-end instances (checked against CPython)         *)
+(* ---------------------------------------------------------------------------------------- *)
+Definition fs_ab : astr := mkA [97; 98] [].
+Definition fs_red : str := [114; 101; 100].
+Definition fs_bold_red : str := [98; 111; 108; 100; 59; 114; 101; 100].
+
+Example sem_ex_hyp : parse_string_format [42; 45; 60; 54] =
+  SFok {| sf_fill := Some 42; sf_flag := Some 45; sf_align := ALeft; sf_width := [54] |}.      (* "*-<6" *)
+Proof. reflexivity. Qed.
+Example split_print_sf_hyp : flag_ok (Some CH_PLUS) /\ digits [56] /\
+  split_spec (print_sf (Some 58) (Some CH_PLUS) ACenter [56] ++ colon_tail (Some fs_red)) =
+  Some ([58; 43; 94; 56], Some fs_red).
+Proof. split; [right; left; reflexivity|]. split; reflexivity. Qed.
+Example split_width_hyp : digits [48; 48; 55] /\ [48; 48; 55] <> [] /\
+  split_spec ([48; 48; 55] ++ colon_tail (Some fs_red)) = Some ([48; 48; 55], Some fs_red).
+Proof. split; [reflexivity|]. split; [discriminate | reflexivity]. Qed.
+Example grammar_colon_hyp : in_grammar [60] /\ [60] <> [].
+Proof. split; [|discriminate]. right. exists None, None, ALeft, []. repeat split. now left. Qed.
+Example spec_object_sem_hyp : split_spec ([42; 45; 60; 54] ++ 58 :: fs_red) = Some ([42; 45; 60; 54], Some fs_red).
+Proof. reflexivity. Qed.
+Example to_str_spec_hyp : [53] <> ([] : str).
+Proof. discriminate. Qed.
+
+(* f"{AnsiString('ab'):*<6:bold;red}" == '\x1b[1;31mab****\x1b[m' *)
+Example e2e_ext : to_str_spec fs_ab (Some ([42; 60; 54] ++ 58 :: fs_bold_red)) true false true 0 =
+  OK ([27; 91; 49; 59; 51; 49; 109] ++ [97; 98; 42; 42; 42; 42] ++ [27; 91; 109]).
+Proof. vm_compute. reflexivity. Qed.
+(* f"{AnsiString('ab'):*-<6:red}" == '\x1b[31mab\x1b[m****' *)
+Example e2e_noext : to_str_spec fs_ab (Some ([42; 45; 60; 54] ++ 58 :: fs_red)) true false true 0 =
+  OK ([27; 91; 51; 49; 109] ++ [97; 98] ++ [27; 91; 109] ++ [42; 42; 42; 42]).
+Proof. vm_compute. reflexivity. Qed.
+(* f"{AnsiString('ab'):-<5:red}" == '\x1b[31mab---\x1b[m': the '-' is the fill, the formatting is extended *)
+Example e2e_flag_only : to_str_spec fs_ab (Some ([45; 60; 53] ++ 58 :: fs_red)) true false true 0 =
+  OK ([27; 91; 51; 49; 109] ++ [97; 98; 45; 45; 45] ++ [27; 91; 109]).
+Proof. vm_compute. reflexivity. Qed.
+(* f"{AnsiString('ab')::-^8:red}" == ':::\x1b[31mab\x1b[m:::' *)
+Example e2e_colon_fill : to_str_spec fs_ab (Some ([58; 45; 94; 56] ++ 58 :: fs_red)) true false true 0 =
+  OK ([58; 58; 58] ++ [27; 91; 51; 49; 109] ++ [97; 98] ++ [27; 91; 109] ++ [58; 58; 58]).
+Proof. vm_compute. reflexivity. Qed.
+(* "x5": ValueError('Invalid format specifier');  "::red": ValueError from the settings parser *)
+Example e2e_err : to_str_spec fs_ab (Some [120; 53]) true false true 0 = Err ValueError /\
+                  to_str_spec fs_ab (Some (58 :: 58 :: fs_red)) true false true 0 = Err ValueError.
+Proof. split; vm_compute; reflexivity. Qed.
+(* ":+<5" is the string_format "fill ':' flag '+' left 5": 'ab:::' *)
+Example e2e_colon_ambiguous : to_str_spec fs_ab (Some [58; 43; 60; 53]) true false true 0 = OK [97; 98; 58; 58; 58].
+Proof. vm_compute. reflexivity. Qed.
+
+(* the boundary of the model's domain ("valid for specs without newline"): in CPython '.' does not
+   match a newline and '$' also matches before a trailing newline, so
+   to_str("\n<5") raises ValueError and to_str("5\n") == 'ab   ', while the model reads: *)
+Example newline_fill_outside_domain : parse_string_format [10; 60; 53] =
+  SFok {| sf_fill := Some 10; sf_flag := None; sf_align := ALeft; sf_width := [53] |}.
+Proof. reflexivity. Qed.
+Example trailing_newline_outside_domain : parse_string_format [53; 10] = SFerr /\ split_spec [53; 10] = None.
+Proof. split; reflexivity. Qed.
+
+Print Assumptions parse_print_sf.
+Print Assumptions print_sf_inj.
+Print Assumptions parse_string_format_digits.
+Print Assumptions parse_string_format_complete.
+Print Assumptions parse_string_format_grammar.
+Print Assumptions parse_string_format_err.
+Print Assumptions apply_string_format_outside_grammar.
+Print Assumptions apply_string_format_sem.
+Print Assumptions apply_sf_ext.
+Print Assumptions apply_sf_noext.
+Print Assumptions apply_sf_nofill.
+Print Assumptions apply_sf_bare.
+Print Assumptions apply_sf_ljust_ext.
+Print Assumptions apply_sf_rjust_ext.
+Print Assumptions apply_sf_center_ext.
+Print Assumptions apply_sf_ljust_noext.
+Print Assumptions apply_sf_rjust_noext.
+Print Assumptions apply_sf_center_noext.
+Print Assumptions apply_sf_no_width.
+Print Assumptions to_str_spec_spec_object.
+Print Assumptions split_spec_print_sf.
+Print Assumptions split_spec_width.
+Print Assumptions split_spec_in_grammar.
+Print Assumptions split_spec_grammar_colon.
+Print Assumptions split_spec_sound.
+Print Assumptions split_spec_none.
+Print Assumptions split_spec_colon_first.
+Print Assumptions split_spec_colon_fill.
+Print Assumptions colon_fill_iff.
+Print Assumptions spec_object_no_match.
+Print Assumptions spec_object_sem.
+Print Assumptions spec_object_print_sf.
+Print Assumptions spec_object_width.
+Print Assumptions spec_object_settings_only.
+Print Assumptions spec_object_noext.
+Print Assumptions spec_object_ext.
+Print Assumptions nat_of_digits_decN.
+Print Assumptions nat_of_digits_leading_zeros.
+Print Assumptions parse_int_width.
